@@ -3,6 +3,7 @@ package checks
 import (
 	"bytes"
 	"context"
+	"errors"
 	"fmt"
 	"os"
 	"path/filepath"
@@ -41,7 +42,7 @@ type RLCase struct {
 }
 
 const c08Rule = "index.Index over the in-memory primary; caller contract as the store keeps it (Put only for absent keys, Update/Remove only for present keys; equal-length distinct keys of one bucket). " +
-	"Exhaustive part: universe {bucket} x S^3 with |S|=2: every ordered insertion of up to 5 (quick) / 6 (thorough) distinct keys followed by every single re-point, removal or further insertion, under three flush placements (never, after every op, once before the last op); |S|=3: all ordered insertions of up to 3 (quick) / 4 (thorough) keys. Random part: rapid sequences of <=80 set/remove/flush over alphabets of 2..256 symbols, key lengths 4..40, bits 8/9/16, with an operation that pushes the bucket out of the in-memory pools (two flushes carrying other buckets) so that it is read from disk afterwards; bulk part: 150-450 keys in the bucket (record lists of several KiB), flushed, pushed out, then read / re-pointed / removed from disk (oracle after flush and push-out operations and at the end); boundary part: random cases run in an index of their own whose file-size limit is 1-4 bytes above the file length measured (first pass, unlimited file) before a drawn flush, so that the record list written by that flush starts within the last four bytes below the limit, followed by a push-out. " +
+	"Exhaustive part: universe {bucket} x S^3 with |S|=2: every ordered insertion of up to 5 (quick) / 6 (thorough) distinct keys followed by every single re-point, removal or further insertion, under three flush placements (never, after every op, once before the last op); |S|=3: all ordered insertions of up to 3 (quick) / 4 (thorough) keys. Random part: rapid sequences of <=80 set/remove/flush over alphabets of 2..256 symbols, key lengths 4..40, bits 8/9/16, with an operation that pushes the bucket out of the in-memory pools (two flushes carrying other buckets) so that it is read from disk afterwards, and an operation during which the read of a stored key from the primary fails once (a call that returns that error must leave the list exactly as it was); bulk part: 150-450 keys in the bucket (record lists of several KiB), flushed, pushed out, then read / re-pointed / removed from disk (oracle after flush and push-out operations and at the end); boundary part: random cases run in an index of their own whose file-size limit is 1-4 bytes above the file length measured (first pass, unlimited file) before a drawn flush, so that the record list written by that flush starts within the last four bytes below the limit, followed by a push-out. " +
 	"oracle after EVERY operation: each present key resolves to its latest location; each absent key of the universe resolves to nothing or to the location of a present key; the decoded record list is strictly sorted, pairwise prefix-free, has one entry per present key, every stored prefix is a prefix of the key owning that location; Update changed only the addressed entry's location and Remove removed only the addressed entry. " +
 	"non-trivial = a list of >=3 entries in which a stored prefix was lengthened by a later insertion; distinct = distinct operation sequence"
 
@@ -56,6 +57,26 @@ type c08Env struct {
 	evictSeq uint32
 	// beforeFlushOp is called with the operation index before a flush operation.
 	beforeFlushOp func(i int)
+	// failNext > 0: the next read of a key from the primary fails (once).
+	failNext int
+}
+
+var errInjectedRead = errors.New("injected transient read error")
+
+// faultyPrim is the in-memory primary with one injectable fault: the read of
+// a stored key (the only primary call Index.Put and Update make) fails while
+// the environment's failNext is set.
+type faultyPrim struct {
+	*inmemory.InMemory
+	env *c08Env
+}
+
+func (p faultyPrim) GetIndexKey(blk types.Block) ([]byte, error) {
+	if p.env.failNext > 0 {
+		p.env.failNext--
+		return nil, errInjectedRead
+	}
+	return p.InMemory.GetIndexKey(blk)
 }
 
 func newC08Env(bits uint8) *c08Env {
@@ -68,7 +89,7 @@ func (e *c08Env) reset() {
 	e.close()
 	e.dir = newScratch("rl")
 	e.prim = inmemory.New(nil)
-	idx, err := index.Open(context.Background(), filepath.Join(e.dir, "idx"), e.prim, e.bits, e.fileMax, 0, 0, filecache.New(8))
+	idx, err := index.Open(context.Background(), filepath.Join(e.dir, "idx"), faultyPrim{e.prim, e}, e.bits, e.fileMax, 0, 0, filecache.New(8))
 	if err != nil {
 		panic(infraError{err})
 	}
@@ -120,6 +141,7 @@ func decodeRL(data []byte) ([]rlEntry, error) {
 type rlStats struct {
 	evicted    bool
 	boundary   bool
+	faultHit   bool
 	maxLen     int
 	lengthened bool
 }
@@ -244,16 +266,48 @@ func runRL(e *c08Env, c RLCase) (st rlStats, v *Violation) {
 		}
 		old, isPresent := present[k]
 		switch op.K {
-		case "set":
+		case "set", "setfault":
 			blk, _ := e.prim.Put(key, []byte{byte(i)})
 			blk.Size = types.Size(1 + i%200)
 			what := "put"
+			if op.K == "setfault" {
+				e.failNext = 1
+			}
 			if isPresent {
 				what = "update"
 				err = e.idx.Update(key, blk)
-				delete(owner, old)
 			} else {
 				err = e.idx.Put(key, blk)
+			}
+			faultHit := op.K == "setfault" && e.failNext == 0
+			e.failNext = 0
+			if faultHit {
+				st.faultHit = true
+			}
+			if err != nil && faultHit && errors.Is(err, errInjectedRead) {
+				// The call failed because the primary could not be read: it
+				// must have left everything as it was.
+				if !c.Sparse {
+					after, err2 := list()
+					if err2 != nil {
+						return st, viol("record-list-unreadable|failed-"+what+"|"+errClass(err2), i, "%v", err2)
+					}
+					if len(after) != len(before) {
+						return st, viol("failed-call-changed-the-list|"+what+"|length", i, "%s(%x) failed (%v) but the list went from %d to %d entries", what, key, err, len(before), len(after))
+					}
+					for j := range before {
+						if !bytes.Equal(before[j].key, after[j].key) || before[j].loc != after[j].loc {
+							return st, viol("failed-call-changed-the-list|"+what+"|entry", i, "%s(%x) failed (%v) but entry %x@%v became %x@%v", what, key, err, before[j].key, before[j].loc, after[j].key, after[j].loc)
+						}
+					}
+				}
+				if v := check(i, "failed-"+what); v != nil {
+					return st, v
+				}
+				continue
+			}
+			if isPresent {
+				delete(owner, old)
 			}
 			if err != nil {
 				return st, viol("index-"+what+"-error|"+what+"|"+errClass(err), i, "%s(%x): %v", what, key, err)
@@ -405,7 +459,7 @@ func genRL(t *rapid.T) RLCase {
 		c.Tails = append(c.Tails, tail)
 	}
 	c.Ops = rapid.SliceOfN(rapid.Custom(func(t *rapid.T) RLOp {
-		k := []string{"set", "rm", "flush", "evict"}[weighted(t, "kind", []int{12, 4, 2, 1})]
+		k := []string{"set", "rm", "flush", "evict", "setfault"}[weighted(t, "kind", []int{12, 4, 2, 1, 1})]
 		return RLOp{K: k, Key: rapid.IntRange(0, len(c.Tails)-1).Draw(t, "key")}
 	}), 1, 80).Draw(t, "ops")
 	return c
@@ -675,7 +729,11 @@ func TestC08(t *testing.T) {
 		}
 		c := genRL(rt)
 		st, v := runRL(env(c.Bits), c)
-		ev.Record(c, st.maxLen >= 3 && st.lengthened, "random", fmt.Sprintf("bits=%d", c.Bits))
+		cl := []string{"random", fmt.Sprintf("bits=%d", c.Bits)}
+		if st.faultHit {
+			cl = append(cl, "random:a-call-hit-the-injected-read-fault")
+		}
+		ev.Record(c, st.maxLen >= 3 && st.lengthened, cl...)
 		if v != nil && ev.Report(v, c) {
 			rt.Fatalf("%v", v)
 		}
